@@ -210,7 +210,7 @@ def build_flagged(lib, jv, arena, rnd, p_const=0.5, p_ref=0.3):
     return build_tree(lib, jv)
 
 
-ROOT_VARIANTS = ["plain", "plain", "plain", "cs_member", "reference", "flagged_tree", "stale_key", "tail_reference"]
+ROOT_VARIANTS = ["plain", "plain", "plain", "cs_member", "reference", "flagged_tree", "stale_key", "tail_reference", "holder_of_references"]
 
 
 class RootVariant:
@@ -234,6 +234,31 @@ class RootVariant:
             self.root = (lib.cJSON_CreateArrayReference if jv[0] == "A" else lib.cJSON_CreateObjectReference)(kid)
             self.extra.append(tree)
             self.jv = [jv[0], jv[1][k:]]
+            return
+        if variant == "holder_of_references":
+            # references INSIDE a tree: an array holding a reference to the whole value, a reference container over the tail of its
+            # list (if it has one), a reference container over a stand-alone item, and an object with a reference member
+            tree = build_tree(lib, jv)
+            self.extra.append(tree)
+            holder = lib.cJSON_CreateArray()
+            elems = [jv]
+            lib.cJSON_AddItemReferenceToArray(holder, tree)
+            if jv[0] in "AO" and len(jv[1]) >= 2:
+                k = 1 + rnd.randrange(len(jv[1]) - 1)
+                lib.cJSON_AddItemToArray(holder, (lib.cJSON_CreateArrayReference if jv[0] == "A" else lib.cJSON_CreateObjectReference)(lib.children(tree)[k]))
+                elems.append([jv[0], jv[1][k:]])
+            alone_jv = ["S", b"stand-alone"] if rnd.random() < 0.5 else ["A", [["N", 1.5], ["n"]]]
+            alone = build_tree(lib, alone_jv)
+            self.extra.append(alone)
+            lib.cJSON_AddItemToArray(holder, lib.cJSON_CreateArrayReference(alone))
+            elems.append(["A", [alone_jv]])
+            obj = lib.cJSON_CreateObject()
+            lib.cJSON_AddItemReferenceToObject(obj, b"ref", tree)
+            lib.cJSON_AddItemToObject(obj, b"own", lib.cJSON_CreateNumber(2.0))
+            lib.cJSON_AddItemToArray(holder, obj)
+            elems.append(["O", [[b"ref", jv], [b"own", ["N", 2.0]]]])
+            self.root = holder
+            self.jv = ["A", elems]
             return
         if variant == "flagged_tree":
             self.root = build_flagged(lib, jv, self.arena, rnd)
